@@ -46,3 +46,52 @@ func ZZ_C19_UpdateCloneInfo() {
 	tmp := Replica{dir: zzDir}
 	zzAssert(tmp.initRevisionCounter() == nil && tmp.revisionCache == rev, "C19.counter-not-persisted")
 }
+
+// C19 (iv): the clone status a controller polls is the one persisted in volume.meta.
+// SetCloneStatus(status): success => GetCloneStatus (which re-reads volume.meta) and
+// a reopen both report exactly that status and nothing else in volume.meta changed;
+// a failing file-system call => an error is returned and the status a poller sees is
+// still the previous one (never "completed" out of a failed update).
+func ZZ_C19_CloneStatus() {
+	fs := zzInstallFS()
+	r, err := zzOpenReplica()
+	zzAssume(err == nil)
+	pool := []string{"", "inProgress", "completed", "error", "NA"}
+	prev := pool[zzConcretize(zzChoice("prev", len(pool)))]
+	zzAssume(r.SetCloneStatus(prev) == nil)
+	infoBefore, berr := ReadInfo(zzDir)
+	zzAssume(berr == nil)
+	next := pool[zzConcretize(zzChoice("next", len(pool)))]
+	failAt := zzConcretize(zzChoice("failAt", 9)) // 8 = no failure
+	fs.Steps = 0
+	if failAt < 8 {
+		fs.FailAt = failAt
+	}
+	serr := r.SetCloneStatus(next)
+	failed := fs.Failed
+	fs.FailAt = -1
+	seen := r.GetCloneStatus()
+	if failed {
+		zzReach("C19.clonestatus.failed")
+		zzAssert(serr != nil, "C19.SetCloneStatus-swallowed-a-failure")
+		zzAssert(seen == prev || seen == next, "C19.clone-status-garbled-by-failed-update")
+		return
+	}
+	if failAt < 8 {
+		zzAssume(false)
+	}
+	zzReach("C19.clonestatus.ok")
+	zzAssert(serr == nil, "C19.SetCloneStatus-failed-without-fault")
+	zzAssert(seen == next, "C19.poller-does-not-see-the-status-just-set")
+	fs.Revive()
+	info, ierr := ReadInfo(zzDir)
+	zzAssert(ierr == nil && info.CloneStatus == next, "C19.clone-status-not-persisted")
+	zzAssert(info.Head == infoBefore.Head && info.Parent == infoBefore.Parent && info.Size == infoBefore.Size &&
+		info.Checkpoint == infoBefore.Checkpoint && info.Rebuilding == infoBefore.Rebuilding,
+		"C19.SetCloneStatus-changed-other-volume-metadata")
+	r2, oerr := zzOpenReplica()
+	zzAssert(oerr == nil, "C19.reopen-after-SetCloneStatus-failed")
+	if r2 != nil {
+		zzAssert(r2.GetCloneStatus() == next, "C19.clone-status-lost-on-reopen")
+	}
+}
